@@ -64,6 +64,7 @@ func (l *lineLogger) Log(e any) {
 }
 
 type realOut struct {
+	lg      *lineLogger // the run's own logger (kept to see whether anything reaches it after the run ended)
 	kind    string // result | error | panic | capped | parse-error
 	msg     string
 	site    string
@@ -150,6 +151,7 @@ func realRun(op *wire.Rec, withLog bool) (out *realOut) {
 		return out
 	}
 	lg := &lineLogger{}
+	out.lg = lg
 	defer func() { out.lines = lg.lines }()
 	var loggers []logging.Logger
 	if withLog {
@@ -364,6 +366,14 @@ func (realComp) Exec(c *wire.Case, w *wire.Writer) {
 			} else if dg != o.digest() {
 				at, a, b := firstDiff(lines, o.lines)
 				w.Ob(wire.R("differs").S("where", "after-other-runs").I("rep", len(prev)).I("line", at).S("a", clip(a)).S("b", clip(b)).S("kinds", "?/"+o.kind))
+			}
+			// a later run without loggers of its own: nothing of it may reach the logger of the run that has ended
+			if o.lg != nil {
+				n := len(o.lg.lines)
+				later := realRun(op, false)
+				if m := len(o.lg.lines); m != n {
+					w.Ob(wire.R("differs").S("where", "later-run-logs").I("rep", len(prev)).I("line", n).S("a", fmt.Sprintf("<%d_lines_when_the_run_ended>", n)).S("b", clip(o.lg.lines[n])).S("kinds", o.kind+"/"+later.kind))
+				}
 			}
 		case "conc":
 			// all runs of this case so far: one by one without loggers, then all at once
